@@ -195,7 +195,8 @@ def comparison_cases(ctx, cases, meta):
     pts = [(a, b) for a in range(0, 4) for b in (0, 1, 2, 3, 4, 5, 9, 10, 11, 19, 20, 99, 100)]
     pairs = [(x, y) for x in pts for y in [(1, 0), (1, 1), (1, 2), (1, 3), (1, 4), (2, 0), (1, 10), (1, 20), (2, 10)]]
     pairs += [(rng.choice(pts), rng.choice(pts)) for _ in range(150)]
-    pairs += [((rng.randrange(0, 1000), rng.randrange(0, 100000)), (rng.randrange(0, 1000), rng.randrange(0, 100000))) for _ in range(100)]
+    pairs += [((rng.randrange(0, 1000), rng.randrange(0, 100000)), (rng.randrange(0, 1000), rng.randrange(0, 100000)))
+              for _ in range(100 if ctx.tier == 'quick' else 3000)]
     for a, b in pairs:
         pa, pb = contents.ProtocolVersion(*a), contents.ProtocolVersion(*b)
         fa, fb = float(str(pa)), float(str(pb))
@@ -262,7 +263,7 @@ def operation_matrix(ctx, cases, meta):
             pool = [OP.QUERY, OP.DISCOVER_VERSIONS, OP.GET, OP.ENCRYPT, OP.MAC, OP.SET_ATTRIBUTE, OP.LOCATE, OP.ARCHIVE, OP.REKEY,
                     OP.GET_ATTRIBUTE_LIST, OP.SIGN, OP.POLL]
             batches = [[OP.QUERY, OP.ENCRYPT, OP.GET], [OP.SET_ATTRIBUTE, OP.QUERY], [OP.ARCHIVE, OP.DISCOVER_VERSIONS, OP.MAC]]
-            batches += [[rng.choice(pool) for _ in range(rng.randrange(2, 5))] for _ in range(4 if quick else 20)]
+            batches += [[rng.choice(pool) for _ in range(rng.randrange(2, 5))] for _ in range(4 if quick else 60)]
             for ops in batches:
                 for stop in (True, False):
                     before = eng.dump()
@@ -311,7 +312,10 @@ def refused_oracle(ctx, v, ops, r, before, after, spy):
 def query_oracle(ctx, sc, v, results):
     """Every operation Query advertises under v is available under v."""
     r = sc.eng.request([kdrv.query([enums.QueryFunction.QUERY_OPERATIONS])], version=v)
-    it = r['items'][0]
+    it = r['items'][0] if r['items'] else None
+    if it is None or not kdrv.ok(it):
+        ctx.disagreement('c16', {'Query itself failed under a supported version': v, 'result': strip(it)})
+        return None
     ops = [o if isinstance(o, OP) else o.value for o in it['raw'].response_payload.operations]
     for o in ops:
         res = results.get(o)
@@ -333,14 +337,14 @@ def query_oracle(ctx, sc, v, results):
 def query_discover_cases(ctx, cases, meta, advertised):
     rng = ctx.subrng('discover')
     quick = ctx.tier == 'quick'
-    for v, ops in sorted(advertised.items()):
+    for v, ops in sorted((k, x) for k, x in advertised.items() if x is not None):
         cases.append('CQuery %s %s' % (cver(v), cp.lst(ops, lambda o: cp.z(o.value))))
         meta.append(('query', v))
         ctx.case_seen(('query', v, tuple(o.name for o in ops)))
     allv = SUPPORTED + UNSUPPORTED[:6]
     lists = [[], list(SUPPORTED), list(reversed(SUPPORTED)), [(1, 0)], [(2, 0)], [(1, 2), (1, 1)], [(1, 1), (1, 2)], [(3, 0)], [(0, 9), (1, 5)],
              [(1, 0), (3, 0), (2, 0)], [(1, 3), (1, 3)], [(1, 4), (1, 0), (1, 4), (2, 1)], [(1, 10), (1, 1)], [(1, 1), (1, 10)]]
-    lists += [[rng.choice(allv) for _ in range(rng.randrange(1, 7))] for _ in range(30 if quick else 300)]
+    lists += [[rng.choice(allv) for _ in range(rng.randrange(1, 7))] for _ in range(30 if quick else 600)]
     lists += [list(p) for p in itertools.permutations([(1, 0), (1, 2), (2, 0)])]
     sc = Scene(ctx)
     probes = {}
@@ -437,7 +441,7 @@ def attribute_matrix(ctx, cases, meta):
         if name not in SPEC_ATTR_MIN:
             SPEC_ATTR_MIN.setdefault(name, (1, 0))
     singles = [[n] for n in table + extra]
-    multis = [[rng.choice(table + extra) for _ in range(rng.randrange(2, 5))] for _ in range(12 if quick else 120)]
+    multis = [[rng.choice(table + extra) for _ in range(rng.randrange(2, 5))] for _ in range(12 if quick else 250)]
     multis += [['Name', 'Sensitive'], ['Sensitive', 'Fresh'], ['Fresh', 'Sensitive'], ['Cryptographic Algorithm', 'Bogus Attribute', 'Sensitive']]
     for v in SUPPORTED:
         sc = Scene(ctx)
